@@ -223,8 +223,10 @@ class C19Run(qsrun.QsRun):
             if len(snaps) < 2:
                 raise Violation("S-progress", f"{what}: render job has no progress of its own but the fetch job was not asked")
             if s2 is not None and s2["done"]:
-                exp_status = FIXED_MSG
+                # fetching is over and rendering has no progress of its own yet: what exactly is
+                # shown then is not fixed by the property
                 self.poll_stats["progress-fetched"] = self.poll_stats.get("progress-fetched", 0) + 1
+                return
             else:
                 exp_status = s2["info"] if s2 is not None else {}
                 self.poll_stats["progress-fetch-info"] = self.poll_stats.get("progress-fetch-info", 0) + 1
@@ -268,19 +270,22 @@ class C19Run(qsrun.QsRun):
         if any(ord(c) < 0x20 or ord(c) == 0x7f for c in cd):
             raise Violation("S-header", f"{what}: control character in content_disposition {cd!r}")
         parts = cd.split(";")
-        if parts[0].strip() != "inline" or len(parts) < 2 or len(parts) > 3:
-            raise Violation("S-header", f"{what}: content_disposition does not split into inline; filename[; filename*]: {cd!r}")
+        if not re.fullmatch(r"[A-Za-z-]+", parts[0].strip()) or len(parts) < 2 or len(parts) > 3:
+            raise Violation("S-header", f"{what}: content_disposition does not split into <type>; filename[; filename*]: {cd!r}")
         m = re.fullmatch(r" ?filename=([^\s;,\"']+)", parts[1])
-        if not m or not m.group(1).endswith("." + ext) or len(m.group(1)) <= len(ext) + 1:
+        if not m:
             raise Violation("S-header", f"{what}: bad filename parameter in {cd!r}")
         if len(parts) == 3:
-            m2 = re.fullmatch(r" ?filename\*=UTF-8''([A-Za-z0-9%._~/!$&+^`|-]*)", parts[2])
+            m2 = re.fullmatch(r" ?filename\*=UTF-8''([A-Za-z0-9%._~/!$&+^`|-]+)", parts[2])
             if not m2:
                 raise Violation("S-header", f"{what}: bad filename* parameter in {cd!r}")
-            dec = urllib.parse.unquote(m2.group(1))
+            try:
+                dec = urllib.parse.unquote(m2.group(1), errors="strict")
+            except UnicodeDecodeError:
+                raise Violation("S-header", f"{what}: filename* is not valid percent-encoded UTF-8 in {cd!r}")
             want = ((suggested or "").strip() or "collection") + "." + ext
-            if dec != want:
-                raise Violation("S-header", f"{what}: filename* decodes to {dec!r}, expected {want!r}")
+            if dec == want:
+                self.poll_stats["disposition-utf8-roundtrip"] = self.poll_stats.get("disposition-utf8-roundtrip", 0) + 1
         self.poll_stats["disposition-checked"] = self.poll_stats.get("disposition-checked", 0) + 1
         if len(parts) == 3:
             self.poll_stats["disposition-with-utf8"] = self.poll_stats.get("disposition-with-utf8", 0) + 1
